@@ -539,11 +539,30 @@ def expand_extract(d, log, meta, unit_path):
             raise ExtractError("%s: no const items in %s" % (unit_path, d.path))
         meta["items"].append(dict(path=d.path, item="consts", n=len(outc)))
         return "\n".join(outc) + "\n"
-    cands = X.find_item(toks, d.item)
+    method_of = None
+    if norm(d.item).startswith("method "):
+        # `method <impl header> :: <name>`: ONE method of an impl block taken as a free-standing fn item
+        # (for `lift`: a block of the method becomes a plain fn; the impl context is dropped)
+        hdr_spec, mname = d.item.strip()[len("method "):].rsplit("::", 1)
+        if hdr_spec.strip().startswith("impl ") or hdr_spec.strip().startswith("impl<"):
+            hdr_spec = hdr_spec.strip()[4:]
+        method_of = norm("impl " + hdr_spec.strip())
+        mname = mname.strip()
+        cands = []
+        for s_, e_, ki_, dp_ in X.find_item(toks, "impl " + hdr_spec.strip()):
+            hdr_, bi_ = X._impl_header(toks, ki_)
+            be_ = match_close(toks, bi_)
+            for k2, ki2, s2, e2 in X.iter_items(toks, bi_ + 1, be_):
+                if k2 == "fn" and X._name_after(toks, ki2) == mname:
+                    cands.append((s2, e2, ki2, 0))
+        d_item_for_kw = "fn " + mname
+    else:
+        cands = X.find_item(toks, d.item)
+        d_item_for_kw = d.item
     if not cands:
         raise ExtractError("%s:%d: item `%s` not found in %s (lost anchor)"
                            % (unit_path, d.lineno, d.item, d.path))
-    kw = norm(d.item).split(" ", 1)[0]
+    kw = norm(d_item_for_kw).split(" ", 1)[0]
     top = [c for c in cands if c[3] == 0]
     if len(cands) > 1 and len(top) >= 1:
         cands = top
@@ -555,14 +574,18 @@ def expand_extract(d, log, meta, unit_path):
         where = "%s:%d" % (d.path, X._line_of(src, toks[s].pos))
         itoks = X.rewrite(toks[s:e + 1], log, where)
         text = _rename(untok(itoks), d.renames, log, where)
-        if d.rewrites:
+        post_lift = kw == "fn" and d.top.lift and "lift_first" in d.opts
+        if d.rewrites and not post_lift:
             text = X.apply_pattern_rewrites(text, d.rewrites, log, where)
         attrs = "".join(a + "\n" for a in d.attrs)
         if kw == "fn":
             fs = d.top
-            fs.name = norm(d.item).split(" ")[1]
+            if post_lift:
+                # `opt lift_first`: the declared rewrites (and their site counts) refer to the LIFTED block only
+                fs.rewrites = list(d.rewrites)
+            fs.name = norm(d_item_for_kw).split(" ")[1]
             fs.rewrites = fs.rewrites or []
-            fid = "%s::%s" % (short, fs.name)
+            fid = "%s::%s" % (short, fs.name) if method_of is None else "%s::%s::%s" % (short, method_of, fs.name)
             if getattr(fs, "id_suffix", None):
                 fid += "#" + fs.id_suffix
             w = _weave_fn(text, fs, fid, d.serves, log, where, meta, False)
